@@ -127,7 +127,7 @@ def run(ctx):
     for g, bb, t in sends:
         R.ob('C08.response', ('InFlightRequest::execute', 'send not repeated'), not cfg.on_cycle(g, bb), 'the response send is not inside a loop', [g.loc(t)])
         rr = [r for r, _ in P.root(P.operand(g, t['args'][1], at=bb))]
-        ok = len(rr) == 1 and rr[0][0] == 'agg' and path_matches(P._agg_rv(rr[0])['adt'], 'Response')
+        ok = len(rr) == 1 and P.unbound(rr[0])[0] == 'agg' and path_matches(P._agg_rv(P.unbound(rr[0]))['adt'], 'Response')
         if ok:
             idr = P.root(P._field(rr[0], 'request_id'))
             ok = bool(idr) and all(r == ('param', ex.id, 1) and P.fpath(p) == ('request', 'id') for r, p in idr)
@@ -150,7 +150,15 @@ def run(ctx):
     bad = [(g, t) for g, t in writers if g.id != ss.id]
     R.ob('C08.writers', ('server transport', 'single writer'), not bad and len(writers) == 1, 'the only code that writes to a server channel\'s transport is the guarded start_send', [g.loc(t) for g, t in bad] or [ss.loc(ss.d)])
     ctors = [(g, s) for g, i, j, s in F.all_aggregates('Response') if path_matches(s['rv']['adt'], 'Response') and s['rv']['adt'].count('::') == 0]
-    okc = all(g.id.startswith(ex.id) or 'requests_per_channel' in g.id for g, s in ctors) and len(ctors) >= 2
+    def only_called_from_allowed(g, depth=4):
+        if g.id.startswith(ex.id) or 'requests_per_channel' in g.id:
+            return True
+        if depth == 0:
+            return False
+        item = F.enclosing_item(g)
+        callers = [h for h in F.fns.values() for _, t2 in h.calls() if F.callee_fn(t2) is item]
+        return bool(callers) and all(only_called_from_allowed(h, depth - 1) for h in callers)
+    okc = all(only_called_from_allowed(g) for g, s in ctors) and len(ctors) >= 2
     R.ob('C08.writers', ('Response', 'constructors'), okc, 'responses are constructed only by execute and by the request limiter', [g.loc(s) for g, s in ctors])
     from .server_common import guard_always_disarmed
     guard_always_disarmed(ctx, 'C08.once', S)
